@@ -21,7 +21,9 @@ Open Scope Z_scope.
 (* ------------------------------------------------------------------------------------ *)
 Inductive sop := ORead (n : Z) | OReadInto (n : Z) | OSeek (p : Z) | OTell | OSeekable.
 
-Record caps := mkCaps { c_seekable : bool; c_readinto : bool }.
+(* c_has_seekable: the source has a `seekable` method at all (a stream that offers only read() has not: asking raises
+   AttributeError, reported as EOther, and nothing is logged since nothing was called) *)
+Record caps := mkCaps { c_seekable : bool; c_readinto : bool; c_has_seekable : bool }.
 Record stream := mkSt { st_bytes : list Z; st_pos : Z; st_log : list sop }.
 
 (* the bytes from the current position on *)
@@ -106,6 +108,7 @@ Definition h_count (rh : rheader) : Z := aint (rh_fields rh) "point_count".
 Definition hdr_read_evlrs (c : caps) (rh : rheader) (s : stream) : result rheader * stream :=
   if h_minor rh >=? 4 then
     if h_nev rh >? 0 then
+      if negb (c_has_seekable c) then (Err EOther, s) else      (* stream.seekable: AttributeError *)
       let '(sk, s1) := s_seekable c s in
       if sk then
         let '(saved, s2) := s_tell s1 in
@@ -173,6 +176,7 @@ Definition is_none {A} (o : option A) : bool := match o with None => true | Some
 (* the EVLR part of LasReader.read(): load what was not loaded at opening *)
 Definition finish_evlrs (c : caps) (rh : rheader) (s : stream) : result rheader * stream :=
   if (h_minor rh >=? 4) && (h_nev rh >? 0) && is_none (rh_evlrs rh) then
+    if negb (c_has_seekable c) then (Err EOther, s) else      (* source.seekable: AttributeError *)
     let '(sk, s1) := s_seekable c s in          (* self.point_source.source.seekable() *)
     if sk then hdr_read_evlrs c rh s1             (* self.read_evlrs() *)
     else
@@ -207,6 +211,10 @@ Definition read_via (c : caps) (read_evlrs : bool) (chunk : option Z) (src : lis
           end
       end
   end.
+
+(* laspy.open(source, read_evlrs=e) alone: the header the reader shows before anything is read (reader.header), and the calls *)
+Definition open_via (c : caps) (read_evlrs : bool) (src : list Z) : result rheader * list sop :=
+  let '(o, s1) := open_reader c read_evlrs (mkSt src 0 []) in (o, st_log s1).
 
 Definition no_seek_tell (l : list sop) : bool :=
   forallb (fun o => match o with OSeek _ | OTell => false | _ => true end) l.
@@ -246,6 +254,12 @@ Definition points_present (f : list Z) (rh : rheader) : Prop :=
 (* f is a byte string whose header parses to rh (EVLRs not looked at), uncompressed, with all its points *)
 Definition laid_out (f : list Z) (rh : rheader) : Prop :=
   dec_header f false = Ok rh /\ bytes_ok f = true /\ rh_compressed rh = false /\ 0 < rh_psize rh /\ points_present f rh.
+(* the file has EVLRs to fetch: the only case in which the library has to know whether the source can seek *)
+Definition needs_evlrs (rh : rheader) : bool := (h_minor rh >=? 4) && (h_nev rh >? 0).
+(* the source can say whether it seeks, or it is never asked *)
+Definition can_answer (c : caps) (rh : rheader) : Prop := c_has_seekable c = true \/ needs_evlrs rh = false.
+(* EVLRs are loaded when the file is opened iff that was asked for and the source can seek (or there is nothing to load) *)
+Definition loads_at_open (c : caps) (e : bool) (rh : rheader) : bool := e && (c_seekable c || negb (needs_evlrs rh)).
 (* the first EVLR starts right after the last point: what a source that cannot seek has to assume *)
 Definition evlrs_adjacent (rh : rheader) : Prop :=
   h_minor rh >= 4 -> h_nev rh > 0 -> h_evstart rh = rh_offset rh + Z.max 0 (h_count rh) * rh_psize rh.
